@@ -232,13 +232,19 @@ func convertHex(data interface{}) {
 		if len(d) > 0 {
 			switch d[0].(type) {
 			case string:
-				for i, s := range d {
-					ch, err := chainhash.NewHashFromStr(s.(string))
-					if err == nil && len(s.(string)) == 64 {
+				for i, e := range d {
+					// JSON arrays may be heterogeneous: only the first
+					// element is known to be a string.
+					s, ok := e.(string)
+					if !ok {
+						continue
+					}
+					ch, err := chainhash.NewHashFromStr(s)
+					if err == nil && len(s) == 64 {
 						d[i] = base64.StdEncoding.EncodeToString(ch.CloneBytes())
 						continue
 					}
-					decoded, err := hex.DecodeString(s.(string))
+					decoded, err := hex.DecodeString(s)
 					if err == nil {
 						d[i] = base64.StdEncoding.EncodeToString(decoded)
 					}
